@@ -173,7 +173,10 @@ func judgeMatrix(c *fw.Ctx, name string, bottomLeft bool, id int, ntiles int) {
 			c.Rec.Count("skipped:tile-smaller-than-margins")
 			continue
 		}
-		for k := 0; k < 5; k++ {
+		// near-edge margins: what a float64 evaluation of (p - origin)/tileSize can resolve at this magnitude, plus the
+		// 9-decimal rounding of the reported corners - far below 1 % of a tile on shallow matrices
+		ex2, ey2 := 64*ulp(magX)+2e-9, 64*ulp(magY)+2e-9
+		for k := 0; k < 9; k++ {
 			fx, fy := c.Rng.Float64(), c.Rng.Float64()
 			switch k {
 			case 0:
@@ -184,6 +187,22 @@ func judgeMatrix(c *fw.Ctx, name string, bottomLeft bool, id int, ntiles int) {
 				fx, fy = 0, 1
 			}
 			p := geom.Point{exf + mx + fx*(tsx-2*mx), eyf - my - fy*(tsy-2*my)}
+			if k >= 5 {
+				if 8*ex2 >= tsx || 8*ey2 >= tsy {
+					continue
+				}
+				switch k {
+				case 5: // just inside the left edge
+					p = geom.Point{exf + ex2, eyf - tsy/2}
+				case 6: // just inside the right (far) edge
+					p = geom.Point{exf + tsx - ex2, eyf - tsy/2}
+				case 7: // just inside the top edge
+					p = geom.Point{exf + tsx/2, eyf - ey2}
+				default: // just inside the bottom edge
+					p = geom.Point{exf + tsx/2, eyf - tsy + ey2}
+				}
+				c.Rec.Count("near_edge_points")
+			}
 			var got *slippy.Tile
 			var fok bool
 			func() {
@@ -314,9 +333,9 @@ func init() {
 			}
 			judgeMatrix(c, tc.Set, tc.BottomLeft, tc.ID, 50)
 		},
-		Rule: "every tile matrix without variable widths of all 14 built-in sets, as is and re-expressed with a bottom-left corner of origin: 4 corner tiles, 8 border tiles and 60 (thorough 2000) random tiles; oracle in 200-bit floats from origin, tile size and corner convention, x,y order taken from the document's orderedAxes (independent of the EPSG table): ToNative = exact top-left corner within 5e-10 + 4 ulp of the largest intermediate magnitude; 5 interior points per tile built from the exact bounds with margin max(1 % tile, 1e-7) map back to the tile; points 1 % outside each side map to no tile; MatrixBoundingBox = exact box and is spanned by the corners of tiles (0,0) and (w,h); distinct = (set, variant, matrix, tile)",
+		Rule: "every tile matrix without variable widths of all 14 built-in sets, as is and re-expressed with a bottom-left corner of origin: 4 corner tiles, 8 border tiles and 60 (thorough 2000) random tiles; oracle in 200-bit floats from origin, tile size and corner convention, x,y order taken from the document's orderedAxes (independent of the EPSG table): ToNative = exact top-left corner within 5e-10 + 4 ulp of the largest intermediate magnitude; 5 interior points per tile built from the exact bounds with margin max(1 % tile, 1e-7), and 4 points just inside each edge (margin 64 ulp of the largest intermediate magnitude + 2e-9) map back to the tile; points 1 % outside each side map to no tile; MatrixBoundingBox = exact box and is spanned by the corners of tiles (0,0) and (w,h); distinct = (set, variant, matrix, tile)",
 		Required: func(string) []string {
-			return []string{"corner:bottomLeft", "corner:topLeft", "axes:swapped(lat/lon or y/x documents)", "axes:x,y", "interior_points", "outside_points", "bounding_boxes", "skipped:variable-widths"}
+			return []string{"corner:bottomLeft", "corner:topLeft", "axes:swapped(lat/lon or y/x documents)", "axes:x,y", "interior_points", "near_edge_points", "outside_points", "bounding_boxes", "skipped:variable-widths"}
 		},
 		MinNonTriv:  1000,
 		Assumptions: []string{"9-decimal rounding of ToNative/MatrixBoundingBox is part of the design (tolerance 5e-10 + ulps)", "x,y order derived from orderedAxes: first axis lat/y/n means swapped"},
